@@ -100,6 +100,7 @@ from ..ast.fpyast import (
     And,
     Assign,
     Cast,
+    Compare,
     ContextStmt,
     Expr,
     ForeignVal,
@@ -449,6 +450,15 @@ class _RoundElimInstance(DefaultTransformVisitor):
             rest = [self._visit_expr(arg, None) for arg in e.args[1:]]
             return type(e)([first, *rest], e.loc)
         return super()._visit_naryop(e, ctx)
+
+    def _visit_compare(self, e: Compare, ctx: Any):
+        # a chain `a < b < c` stops at the first link that fails, so only its
+        # first two operands are evaluated unconditionally
+        args = [
+            self._visit_expr(arg, ctx if i < 2 else None)
+            for i, arg in enumerate(e.args)
+        ]
+        return Compare(e.ops, args, e.loc)
 
     def _visit_if_expr(self, e: IfExpr, ctx: Any) -> IfExpr:
         # ``cond ? ift : iff``: the cond is evaluated unconditionally
